@@ -13,6 +13,10 @@ from . import analysis
 rule("C10.d", "an optional grid parameter (default None) is never dereferenced, nor passed to a callee that dereferences "
               "it, on a path where it may still be None", floor=8, props=["C10", "C15"])
 
+rule("C10.k", "timegrid=None means 'the grid this object was given before': where that case is possible, another object is handed the effective "
+              "grid (self.timegrid / the normalised name), never the raw parameter - which would tell it to use whatever grid *it* was last set up "
+              "with (an asset of a portfolio that was meanwhile set up alone on another grid)", floor=2)
+
 PARAM = "timegrid"
 MAYBE, NONNULL, NULL = "maybe-None", "non-None", "None"
 
@@ -165,9 +169,71 @@ def _unsafe_sites(ctx, fn, pname, _stack, assume_default_none=True):
     return out
 
 
-@analysis("nullness", ["C10.d"])
+def _forwarded_maybe_none(ctx, fn, pname):
+    """calls on *other* objects that receive the parameter for an optional grid while it may be None"""
+    dom = Partitioned(Null(pname))
+    w = Walker(dom)
+    out = []
+
+    def on_stmt(node, state):
+        sts = Partitioned.states(state)
+        maybe = any(x in (MAYBE, NULL) for x in sts)
+        roots = list(au.walk_own(node))
+        for n in roots:
+            if not isinstance(n, ast.Call) or not isinstance(n.func, ast.Attribute):
+                continue
+            if au.base_name(n.func) in ("self", None) or (isinstance(n.func.value, ast.Call) and isinstance(n.func.value.func, ast.Name) and n.func.value.func.id == "super"):
+                continue
+            # the receiver is an asset of the object: the variable of a loop over <...>.assets
+            recv = n.func.value
+            loops = [a for a in ctx.p.ancestors(n) if isinstance(a, ast.For) and isinstance(a.target, ast.Name) and isinstance(recv, ast.Name)
+                     and a.target.id == recv.id and any(isinstance(x, ast.Attribute) and x.attr == "assets" for x in au.walk_local(a.iter))]
+            if not loops:
+                continue
+            targets = [t for t in ctx.p.resolve_call(n, fn) if t.param(pname) is not None]
+            if not targets:
+                continue
+            val = au.kwarg(n, pname)
+            if val is None:
+                t0 = targets[0]
+                names = [q.name for q in t0.params]
+                off = 1 if (t0.cls is not None and names and names[0] in ("self", "cls")) else 0
+                pos = names.index(pname) - off
+                val = n.args[pos] if len(n.args) > pos and not any(isinstance(a, ast.Starred) for a in n.args) else None
+            if val is None:
+                continue       # not handed on at all: C10.i
+            raw = isinstance(val, ast.Name) and val.id == pname
+            out.append((n, maybe and raw, targets[0]))
+    w.on_stmt = on_stmt
+    w.run_function(fn)
+    seen, res = set(), []
+    for n, maybe, t in out:
+        if id(n) in seen:
+            # a call visited on several partitions: unsafe if any of them may be None
+            res = [(a, b or (maybe and a is n), c) for a, b, c in res]
+            continue
+        seen.add(id(n))
+        res.append((n, maybe, t))
+    return res
+
+
+@analysis("nullness", ["C10.d", "C10.k"])
 def run(ctx):
     p = ctx.p
+    n_k = 0
+    for fn in sorted(p.all_functions(), key=lambda f: f.qualname):
+        q = fn.param(PARAM)
+        if q is None or not q.has_default or not au.is_none(q.default) or fn.parent is not None:
+            continue
+        for n, maybe, t in _forwarded_maybe_none(ctx, fn, PARAM):
+            n_k += 1
+            ctx.ob("C10.k", fn, au.short(n, 80), not maybe,
+                   "%s may be None here (the documented 'as set previously' case) and is handed to %s, whose own timegrid=None means 'the grid *that* "
+                   "object was last given': the portfolio still holds grid A, but an asset that was meanwhile set up alone on grid B is built on B - "
+                   "c has 168 entries instead of 216, or the price lengths no longer fit" % (PARAM, t.qualname), node=n,
+                   ok_detail="the name is non-None on every path to the call")
+    if n_k == 0:
+        ctx.ob("C10.k", "package", "grid handed to the assets of a portfolio", None, "no call on the assets of a loop over <...>.assets takes a grid")
     n_fn = 0
     for fn in p.all_functions():
         q = fn.param(PARAM)
